@@ -116,6 +116,7 @@ struct G {
 	long long run_index; uint64_t base_seed;
 	int alloc_failures; int no_write_window;
 	int64_t plain_since_sched;
+	unsigned char *site_hit; uintptr_t text_lo; size_t text_len;
 	int tracing; FILE *trace_fp;
 };
 extern G g;
@@ -128,6 +129,7 @@ void rt_violation_v (const char *prop, int cls, const char *site, const char *fm
 void rt_init ();
 void rt_cov_accumulate ();
 void rt_cov_restore ();
+void rt_dump_sites (const char *path);
 void rt_reset_run (uint64_t seed);
 int rt_run (const struct nsim_family *fam);
 int64_t rt_cpp_now ();
